@@ -400,6 +400,9 @@ func (m *Master) stream(c net.Conn, pc *pconn, p *ServePlan, rec *ConnRecord, d 
 	}
 	for i, pk := range pkts {
 		if p.Fault != nil && p.Fault.At == i {
+			if p.Lockstep && p.Gate != nil {
+				p.Gate(i) // lock-step: the terminal packet arrives on its own, after everything before it was consumed
+			}
 			if doFault(p.Fault, pk) {
 				return
 			}
@@ -426,6 +429,9 @@ func (m *Master) stream(c net.Conn, pc *pconn, p *ServePlan, rec *ConnRecord, d 
 		}
 	}
 	if p.Fault != nil && p.Fault.At >= len(pkts) {
+		if p.Lockstep && p.Gate != nil {
+			p.Gate(len(pkts))
+		}
 		if doFault(p.Fault, nil) {
 			return
 		}
